@@ -137,6 +137,9 @@ type sessionCase struct {
 	// logging wrapper that may or may not carry TLS; here it does not and
 	// reports the zero state)
 	wrapped bool
+	// the mechanisms the client's SASL feature is configured with: "" PLAIN,
+	// "scram" SCRAM only, "scram+plain"
+	mechs string
 	// beforeProceed, when set, is called by the peer after it has read the
 	// client's <starttls/> and before it answers <proceed/> (used to overlap
 	// several sessions that share one feature value)
@@ -155,12 +158,12 @@ func (tc tcase) String() string {
 	var sb strings.Builder
 	fmt.Fprintf(&sb, "StartTLS(cfg nil=%v) reused for %d sessions (one Negotiator value for all: %v):", tc.nilCfg, len(tc.sessions), tc.sharedNeg)
 	for i, s := range tc.sessions {
-		fmt.Fprintf(&sb, "\n  session %d: domain=%s first-list=%s answer=%s after-proceed=%s honest-after-tls=%v tee=%v extra-double=%v clear-header-to=%q location=%q first-protected-header=%q transport-wrapper-with-ConnectionState-method=%v", i, s.domain, s.first, s.answer, s.after, s.honest, s.tee, s.extraDbl, s.hdrTo, s.location, s.protHdr, s.wrapped)
+		fmt.Fprintf(&sb, "\n  session %d: domain=%s first-list=%s answer=%s after-proceed=%s honest-after-tls=%v tee=%v extra-double=%v clear-header-to=%q location=%q first-protected-header=%q transport-wrapper-with-ConnectionState-method=%v client-mechanisms=%q", i, s.domain, s.first, s.answer, s.after, s.honest, s.tee, s.extraDbl, s.hdrTo, s.location, s.protHdr, s.wrapped, s.mechs)
 	}
 	return sb.String()
 }
 
-var firsts = []string{"required", "required", "optional", "among", "among", "absent-others", "absent-empty", "missing-eof", "missing-error",
+var firsts = []string{"required", "required", "optional", "among", "among", "among-required", "absent-others", "absent-empty", "missing-eof", "missing-error",
 	// lists the client cannot use: white space, text or a comment inside the
 	// list, a list in a foreign namespace, another stream-level element in its place
 	"defective-space", "defective-text", "defective-comment", "defective-foreign-list", "defective-other-stream-element"}
@@ -183,6 +186,7 @@ func genCase(t *rapid.T) tcase {
 			location: rapid.SampledFrom([]string{"", "", "xmpp.hosting.example.org"}).Draw(t, "location"),
 			protHdr:  rapid.SampledFrom([]string{"", "", "", "noid", "noversion"}).Draw(t, "protHdr"),
 			wrapped:  rapid.IntRange(0, 3).Draw(t, "wrapped") == 0,
+			mechs:    rapid.SampledFrom([]string{"", "", "", "scram", "scram+plain"}).Draw(t, "mechs"),
 		})
 	}
 	return tc
@@ -314,7 +318,14 @@ func runSessionNeg(sc sessionCase, feature xmpp.StreamFeature, forceTee *bool, s
 	if sc.location != "" {
 		peerFrom = sc.location
 	}
-	feats := []xmpp.StreamFeature{feature, xmpp.SASL("", "secret", sasl.Plain), xmpp.BindResource()}
+	saslMechs := []sasl.Mechanism{sasl.Plain}
+	switch sc.mechs {
+	case "scram":
+		saslMechs = []sasl.Mechanism{sasl.ScramSha256, sasl.ScramSha1}
+	case "scram+plain":
+		saslMechs = []sasl.Mechanism{sasl.ScramSha1, sasl.Plain}
+	}
+	feats := []xmpp.StreamFeature{feature, xmpp.SASL("", "secret", saslMechs...), xmpp.BindResource()}
 	if sc.extraDbl {
 		feats = append(feats, secureDouble())
 	}
@@ -351,8 +362,10 @@ func runSessionNeg(sc sessionCase, feature xmpp.StreamFeature, forceTee *bool, s
 			hdr1 = headerTo(peerFrom, "alice@evil.example")
 		}
 		starttls := `<starttls xmlns="` + tlsNS + `"/>`
-		mechs := `<mechanisms xmlns="` + saslNS + `"><mechanism>PLAIN</mechanism></mechanisms>`
+		mechs := `<mechanisms xmlns="` + saslNS + `"><mechanism>PLAIN</mechanism><mechanism>SCRAM-SHA-1</mechanism><mechanism>SCRAM-SHA-256</mechanism></mechanisms>`
 		switch sc.first {
+		case "among-required":
+			feedClear(hdr1 + `<stream:features>` + mechs + `<starttls xmlns="` + tlsNS + `"><required/></starttls><bind xmlns="` + bindNS + `"/></stream:features>`)
 		case "required":
 			feedClear(hdr1 + `<stream:features><starttls xmlns="` + tlsNS + `"><required/></starttls></stream:features>`)
 		case "optional":
@@ -678,6 +691,8 @@ func check(t failer, tc tcase) {
 				clearOnly[tlsNS] = true
 			case "among":
 				clearOnly[tlsNS], clearOnly[saslNS], clearOnly[bindNS], clearOnly["urn:verif:sec"] = true, true, true, true
+			case "among-required":
+				clearOnly[tlsNS], clearOnly[saslNS], clearOnly[bindNS] = true, true, true
 			}
 			if sc.after == "tls-inject" {
 				clearOnly[saslNS] = true
